@@ -53,7 +53,27 @@ _T = ["lowB_pos", "step_lo_ge", "step_lo_le_hi", "step_hi_le", "slow_le_max", "s
       # Part F: the client's dispatcher in front of its watchdog (Frp/Model/Dispatch.lean)
       "wrun_append", "erun_is_run", "delivered_sound", "close_sound_dispatch", "async_reader_idle",
       "async_read_progress", "async_refines_watchdog", "fed_never_torn_down", "blocked_delivers_nothing",
-      "inline_starves", "inline_starves_witness", "code_client_dispatch", "fed_never_torn_down_code"]
+      "inline_starves", "inline_starves_witness", "code_client_dispatch", "fed_never_torn_down_code",
+      "busy_server_detected", "lenient_client_witness", "busy_server_detected_code",
+      # Part G: which events refresh the liveness clocks (Frp/Model/Liveness.lean)
+      "strict_refines", "busy_peer_detected", "busy_peer_alive", "lenient_never_closes", "lenient_witness",
+      "code_clock_strict", "busy_peer_detected_code",
+      # Part H: the client's teardown reaches close(doneCh) (Frp/Model/Teardown.lean, Frp/Props/C14Teardown.lean)
+      "td_inv_run", "teardown_completes", "teardown_full_fixed", "overflow_stuck", "overflow_reachable",
+      "teardown_full_fails_asis", "overflow_witness", "stop_waits_stuck", "code_teardown_shape", "teardown_code"]
+
+
+def td_nontrivial(tok, res):
+    return tok[0] == "tdwait" and res.startswith("n=")
+
+
+def td_class(r):
+    if not r.startswith("n="):
+        return r[:10]
+    f = r.split(" ")
+    n = int(f[0][2:])
+    size = "many" if n > 100 else ("near-cap" if n > 12 else "few")
+    return "%s/%s/%s" % (size, f[1], "STUCK" if f[2].endswith("stuck") else "%dlogins" % (f[2].count("L")))
 
 PROP = {
         "level": "proof",
@@ -63,6 +83,9 @@ PROP = {
             {"name": "wait", "quick_n": 5000, "thorough_n": 16000, "thorough_seeds": 4,
              "search_seeds": 2, "search_n": 3000,
              "nontrivial": wait_nontrivial, "result_class": wait_class},
+            {"name": "td", "quick_n": 13, "thorough_n": 41, "thorough_seeds": 3,
+             "search_seeds": 2, "search_n": 21,
+             "nontrivial": td_nontrivial, "result_class": td_class},
         ],
         "rule": "wait engine: real wait.NewFastBackoffManager(...).Backoff on generated option sets and success/error "
                 "sequences (real sleeps cross the fast-retry window), real wait.BackoffUntil with a recording manager, "
@@ -77,18 +100,39 @@ PROP = {
                 "(StartWorkConn) or closes some of the work connections and leaves the others idle in its pool while it "
                 "answers every ping for longer than heartbeatTimeout + 1 s + slack, or falls silent / answers with an "
                 "error: the client must not close while pongs flow, must close in time when they stop, and every request "
-                "must open a work connection whatever earlier ones are idle); non-trivial = a delay returned "
+                "must open a work connection whatever earlier ones are idle; BUSY dead peers: a scripted client that after "
+                "its last valid ping keeps sending, for longer than timeout + 1 s + slack and at a spacing below the timeout, "
+                "pings with a wrong key, pings the Ping plugin rejects, CloseProxy of unknown names, NewProxy that fail or "
+                "succeed, NatHoleReport -- and a scripted server that stops answering pings but keeps sending ReqWorkConn, "
+                "NewProxyResp, NatHoleResp: the session must be closed within (last valid heartbeat + timeout, + 1 s + slack]); "
+                "td engine: real frpc with N tcp proxies (1-6, 40-99, 101-180; plain, health-checked on a live / on a dead "
+                "port) against a scripted server that cuts the control connection some ms after each login, the cuts spread "
+                "over every phase of the proxies' check goroutines (initial 500 ms sleep, first round, select): after every "
+                "cut the next login must arrive within the back-off model's bound (3 s at most here), i.e. Control.worker() "
+                "reached close(doneCh); the teardown model with the parameters read from the source must predict the same; "
+                "non-trivial = a delay returned "
                 "after an error, a BackoffUntil run, a finished watchdog / re-login scenario, a scenario with "
                 "registrations or reloads; distinct = distinct (op line, result) pairs; harness/corpus/wait holds op "
                 "sequences the generator found against seeded defects",
         "trusted": COMMON_TRUST + [
-            "models Frp/Model/Backoff.lean, Watchdog.lean, Reconnect.lean, SessEnd.lean, Rereg.lean, Dispatch.lean written by hand; tied by "
+            "models Frp/Model/Backoff.lean, Watchdog.lean, Reconnect.lean, SessEnd.lean, Rereg.lean, Dispatch.lean, Liveness.lean, "
+            "Teardown.lean written by hand; tied by "
             "the wait engine (relational: every observed delay / closure time must lie in the model's interval; "
             "registrations seen / re-registrations accepted must equal the model's)",
             "the parameters `async` (SessEnd), `early` (Rereg) and `asyncReq` (Dispatch) are read from the source by "
             "translate/gen_sessfacts.go (server and client registerMsgHandlers, Dispatcher.readLoop, AsyncHandler, worker(), "
             "loopLoginUntilSuccess; for the client also which handler methods wait for the peer: a call of msg.ReadMsg / "
             "msg.ReadMsgInto / ctl.connectServer / Connect / Read in the method body) on every run",
+            "the liveness policies (which handlers store lastPing / lastPong, and whether the heartbeat handler stores it before "
+            "its rejection branch) are read from the source by translate/gen_sessfacts_clock.go on every run: every direct "
+            "Store/Swap/CompareAndSwap on the field in the package, attributed to the registered handlers through the methods "
+            "of Control they call or mention (fixpoint) and through wrapper literals in registerMsgHandlers; stores reachable "
+            "from no handler (other than NewControl) are listed as stray and make code_clock_strict fail; a clock written "
+            "through another name (pointer alias, reflection) would escape it",
+            "the teardown parameters (send channel capacity, Wrapper.Stop blocks with pw.mu held, a receiver on the send channel "
+            "during pm.Close()) are read from the source by the same generator; Teardown abstracts a wrapper to its check "
+            "goroutine and the two locks to `held`; pm.mu (held by Manager.Close for the whole walk) is not modelled: nobody "
+            "else needs it before doneCh is closed; visitors (vm.Close) are not modelled",
             "Dispatch: the handlers of NewProxyResp / NatHoleResp / Pong are modelled as returning at once (the translator "
             "checks that their bodies contain no read from / dial to the peer; calls they make into the proxy manager and "
             "the message transporter are not followed)",
@@ -114,6 +158,16 @@ PROP = {
             "next timed event; `erun_is_run` shows these are schedules of the small-step model); for arbitrary schedules "
             "`close_sound_dispatch`, `async_reader_idle` and `async_read_progress` hold; the phase of the client's 1 s "
             "checker is unknown to the engine, which therefore compares closure times relationally",
+            "KNOWN FINDING C14-client-teardown-sendch-overflow: in frp as it is the teardown clause fails for more queued "
+            "messages than the send channel holds (teardown_full_fails_asis); teardown_completes proves it under the explicit "
+            "hypothesis TdRoom (a receiver, or room for every message still to be pushed), teardown_full_fixed for the repaired "
+            "code; teardown_code states which of the two the source at hand is",
+            "teardown theorems are possibility statements over all reachable states (from every state a finishing schedule of "
+            "<= 5 steps per wrapper exists; from a stuck state none does): that the Go scheduler runs the enabled goroutines "
+            "is assumed; the time the teardown takes is only observed (td engine)",
+            "td engine: the number of NewProxy seen on a session that is cut early is only bounded (<= N); proxies 13..39 and "
+            "cuts while NewProxy messages are still queued (fewer than 101 proxies can then overflow the channel too) are not "
+            "generated",
             "option sets outside WF (Factor < 1, zero Duration, zero FastRetryDelay) are generated (malformed stream) "
             "and compared with the model, but the lower-bound clause is not claimed for them",
             "with MaxDuration = 0 (no frp call site does this) the delay grows without bound and overflows int64 after "
@@ -128,12 +182,14 @@ PROP = {
     }
 
 META = {
-        "engine": "lean+harness(wait)",
+        "engine": "lean+harness(wait,td)",
         "design_ref": "DESIGN.md §6 C14",
         "technique": "Lean 4 proofs by induction over all call / event histories of the back-off manager, the heartbeat "
-                     "watchdog, the client dispatcher in front of it (small-step, all interleavings + prompt read loop), the "
+                     "watchdog with arbitrary other traffic under a clock-refresh policy, the client dispatcher in front of it "
+                     "(small-step, all interleavings + prompt read loop), the client teardown (small-step, all interleavings), the "
                      "server session-end (small-step, all interleavings) and the client re-registration "
-                     "models; go/ast extraction of three structural facts; relational differential correspondence with the real "
+                     "models; go/ast extraction of the structural facts (handler registration modes, snapshot point, every store of "
+                     "lastPing / lastPong with its handler and position, the shape of the teardown path); relational differential correspondence with the real "
                      "wait.fastBackoffImpl, wait.BackoffUntil, server.Control and client.Control/Service on loopback",
         "text": "Proof (partial): for every option set with Duration > 0, Factor = 0 or >= 1 and positive fast-retry delay, "
                 "every success/error history, every clock and every jitter draw, each delay the reconnect back-off hands "
@@ -148,7 +204,18 @@ META = {
                 "through AsyncHandler), the watchdog's state is that of the bare watchdog fed with the Pongs when they are "
                 "sent, so a server that keeps answering is never torn down, whereas with a plain ReqWorkConn handler one idle "
                 "work connection closes the session within timeout + checker period whatever the server sends "
-                "(inline_starves, witness); for every interleaving of peer, read loop, NewProxy handler, "
+                "(inline_starves, witness); on both ends only an accepted heartbeat moves the clock (strict policy, read from the "
+                "source): for every history of valid pings, rejected pings and any other control messages the watchdog is in the "
+                "state of the bare watchdog on the history without the other traffic, so a peer without a valid key that keeps "
+                "sending NewProxy / CloseProxy / rejected pings, and a server that stops answering pings but keeps sending "
+                "ReqWorkConn / NewProxyResp, are closed within timeout + checker period, while under ANY other policy such a "
+                "peer is never closed (lenient_never_closes, witnesses); the client's teardown worker -> pm.Close -> Wrapper.Stop "
+                "can reach close(doneCh) from every reachable state -- every check goroutine in any phase, Stop in any phase -- in "
+                "<= 5 steps per wrapper if the send channel has a receiver or room, and never if Stop pushes into a full channel "
+                "without a receiver, which frp as it is reaches with more than 100 proxies (KNOWN FINDING, "
+                "teardown_full_fails_asis; repaired model: teardown_full_fixed; teardown_code says which applies to the source at "
+                "hand), nor if Stop waits for the check goroutine with the wrapper lock held (stop_waits_stuck); "
+                "for every interleaving of peer, read loop, NewProxy handler, "
                 "watchdog and worker() a torn-down server session holds no remote port and no proxy name, registrations in "
                 "flight at the end of the connection included, and the teardown is reached in <= 6 own steps once the "
                 "connection ended; for every history of reloads, connection losses, refused and successful logins a live "
@@ -156,8 +223,11 @@ META = {
                 "Kernel-checked, axioms propext/Classical.choice/Quot.sound only. Tied to the code by a go/ast extraction of "
                 "the handler registration modes (server and client) and the snapshot point, and by ~5k (quick) generated "
                 "operations per run on the real functions, including real frps/frpc watchdog, registration-in-flight, "
-                "re-login, reload-during-outage and idle-pooled-work-connection scenarios with 1-3 s timeouts.",
-        "note": "Partial: timers, the scheduler and the network are sampled, not proved. The code allows up to "
+                "re-login, reload-during-outage, idle-pooled-work-connection, busy-dead-peer and lost-session teardown (1-180 "
+                "proxies, with and without health checks) scenarios with 1-3 s timeouts.",
+        "note": "Partial: timers, the scheduler and the network are sampled, not proved. KNOWN FINDING "
+                "C14-client-teardown-sendch-overflow (frpc with > 100 proxies never reconnects after a connection loss; repair in "
+                "hooks/C14-fix-teardown-drain.patch). The code allows up to "
                 "2*FastRetryCount fast retries per window (5 in the first minute with frpc's options), not FastRetryCount as "
                 "the comment in client/service.go says (fast_per_window_count_witness); this does not break the property.",
     }
